@@ -37,10 +37,14 @@ WRONG_READERS = [("exposeCut", "InvOnlyIntactExposed"), ("crashOnCutTable", "Inv
 ALL_INVARIANTS = ["InvFaithful", "InvOnlyIntactExposed", "InvNoSideEffects", "InvNeverCrashes", "InvNoViolation",
                   "InvReference", "InvPosition", "InvLayout"]
 PHASE_ACTIONS = ["AVersionHeader", "AProp", "APropsEnd", "AEntryHeader", "AEntriesEnd", "ADataOffsets"]
-# an allocation of more than 64 MB for archives of at most a few KB is "memory unrelated to the file size":
-# the sanitizer's allocator aborts the child, which main.cpp reports as a Crash event (sensed, DESIGN.md 8)
-ASAN_ENV = {"ASAN_OPTIONS": "detect_leaks=0:abort_on_error=1:handle_abort=0:max_allocation_size_mb=64:allocator_may_return_null=0",
-            "UBSAN_OPTIONS": "halt_on_error=1:abort_on_error=1:print_stacktrace=1"}
+# a single allocation of more than 4 MB for archives of at most a few KB is "memory unrelated to the file
+# size": the sanitizer's allocator aborts the child, which main.cpp reports as a Crash event (sensed, DESIGN.md 8)
+ALLOC_LIMIT_MB = 4
+ASAN_ENV = {"ASAN_OPTIONS": "detect_leaks=0:abort_on_error=1:handle_abort=0:max_allocation_size_mb=%d:allocator_may_return_null=0:symbolize=0" % ALLOC_LIMIT_MB,
+            "UBSAN_OPTIONS": "halt_on_error=1:abort_on_error=1:print_stacktrace=0"}
+ASAN_ENV_SOLO = {"ASAN_OPTIONS": ASAN_ENV["ASAN_OPTIONS"].replace("symbolize=0", "symbolize=1"),
+                 "UBSAN_OPTIONS": "halt_on_error=1:abort_on_error=1:print_stacktrace=1"}
+CASE_TIMEOUT_S = 5
 
 
 # ------------------------------------------------------------------------------------------------
@@ -275,7 +279,7 @@ def observed_text(why, line, detail):
     o = line["obs"]
     ents = line["arch"]["entries"]
     if why == "NeverCrashes":
-        return "the run died in stage '%s': %s" % (o["stage"], o["crash"])
+        return "the run died in stage '%s': %s%s" % (o["stage"], o["crash"], (" (%s)" % detail["sanitizer"]) if detail and detail.get("sanitizer") else "")
     if why == "NoSideEffects":
         return "directory before %s, after %s" % (json.dumps(o["before"]), json.dumps(o["after"]))
     parts = []
@@ -293,27 +297,58 @@ def observed_text(why, line, detail):
             want = ents[j]["blob"]
             if why == "Faithful" and (g["st"] != "ok" or g["hex"] != want):
                 parts.append("%s %s: %s%s, packed %s" % (path, g["name"], g["st"], (" " + g["hex"]) if g["st"] == "ok" else "", want or "(empty)"))
-            if why == "OnlyIntactExposed" and g["st"] == "ok" and (g["hex"] != want or True):
+            if why == "OnlyIntactExposed" and g["st"] == "ok":
                 parts.append("%s %s returned %s (packed %s)" % (path, g["name"], g["hex"] or "(empty)", want or "(empty)"))
     if detail and detail.get("codes"):
         parts.append("loadFile diagnostics %s" % json.dumps(detail["codes"]))
     return "; ".join(parts[:8])
 
 
-def run_cases(cases, wdir, tag, chunks=None):
-    """materialise, drive (sanitizer build), validate.  -> (bad, totals, tlc results, trace lines by id, details by id)"""
+def sanitizer_report(path):
+    """the sanitizer's own words from the stderr of a single-case driver run: summary + the frames in the code under test"""
+    try:
+        text = open(path, errors="replace").read()
+    except OSError:
+        return ""
+    summary = [ln.strip() for ln in text.splitlines() if ln.startswith("SUMMARY:") or "runtime error:" in ln]
+    frames = []
+    for ln in text.splitlines():
+        ln = ln.strip()
+        if ln.startswith("#") and (vlib.REPO + "/src" in ln or "rvutils::" in ln or "sqf::" in ln):
+            parts = ln.split(" in ", 1)
+            if len(parts) == 2:
+                fn = parts[1]
+                fn = fn.split(" (/")[0]
+                frames.append(fn[:160])
+    if not summary:
+        return ""
+    return (summary[0][:200] + (" @ " + " <- ".join(frames[:3]) if frames else ""))
+
+
+def run_cases(cases, wdir, tag, chunks=None, solo=False):
+    """materialise, drive (sanitizer build), validate.  solo: one driver process per case with symbolised sanitizer
+    reports (confirmation runs).  -> (bad, totals, tlc results, trace lines by id, details by id)"""
     t0 = time.time()
     base = os.path.join(wdir, "cases_" + tag)
     shutil.rmtree(base, ignore_errors=True)
     os.makedirs(base)
     mats = [materialise(c, base) for c in cases]
     t1 = time.time()
-    events = vlib.run_driver("pbo", [m[0] for m in mats], wdir, kind="asan", timeout_s=10, tag=tag, env=ASAN_ENV)
+    reports = {}
+    if solo:
+        events = []
+        for m in mats:
+            t = "%s.%s" % (tag, m[0]["id"])
+            events += vlib.run_driver("pbo", [m[0]], wdir, kind="asan", timeout_s=2 * CASE_TIMEOUT_S, jobs=1, tag=t, env=ASAN_ENV_SOLO)
+            reports[m[0]["id"]] = sanitizer_report(os.path.join(wdir, "%s.0.out.ndjson.stderr" % t))
+    else:
+        events = vlib.run_driver("pbo", [m[0] for m in mats], wdir, kind="asan", timeout_s=CASE_TIMEOUT_S, tag=tag, env=ASAN_ENV)
     t2 = time.time()
     by = vlib.events_by_case(events)
     lines, details, execs = {}, {}, []
     for c, (dcase, tarch, flen, before, d) in zip(cases, mats):
         obs, detail = observation(by.get(c["id"], []), before, listing(d))
+        detail["sanitizer"] = reports.get(c["id"], "")
         ln = {"e": "Case", "id": c["id"], "arch": tarch, "fault": c["fault"], "filelen": flen, "obs": obs}
         lines[c["id"]] = ln
         details[c["id"]] = detail
@@ -361,7 +396,7 @@ def run(rep, tier, seed, replay):
         "the archive's trailing sha1 is written by the packer; a reader is not required to verify it - but a length field corrupted "
         "within the bounds of the file can only be noticed through it (fault class CorruptLen.inbounds is reported separately)",
         "SENSED, not proved (DESIGN.md 8): reads outside buffers, use of freed memory and undefined behaviour are sensed by the "
-        "ASan+UBSan build of the driver, 'memory unrelated to the file size' by the sanitizer allocator limit of 64 MB "
+        "ASan+UBSan build of the driver, 'memory unrelated to the file size' by the sanitizer allocator limit of %d MB per allocation " % ALLOC_LIMIT_MB +
         "(max_allocation_size_mb) - each aborts the forked child and arrives as a Crash event judged by NeverCrashes; reads of "
         "uninitialised memory are not sensed",
         "directory listing + sha1 of every file of the case's own directory before/after; files created elsewhere are not seen",
@@ -418,7 +453,7 @@ def run(rep, tier, seed, replay):
             w["id"] = "w%d" % len(witnesses)
             witnesses[key] = w
         if witnesses:
-            bad2, _, _, lines2, details2 = run_cases(list(witnesses.values()), wdir, "c17confirm", chunks=1)
+            bad2, _, _, lines2, details2 = run_cases(list(witnesses.values()), wdir, "c17confirm", chunks=1, solo=True)
             again = {}
             for b in bad2:
                 again.setdefault((b["id"], "C17/%s/%s" % (b["why"], b["op"])), b)
@@ -509,10 +544,10 @@ def generate(rep, tier, rng):
             cases.append(c)
 
     # ---- 2. a small space replayed completely
-    g = mc("gen_small", emit=True, names=NAMES[:2], maxentries=1, maxprops=1, deltas=deltas, invariants=[], workers=4)
+    g = mc("gen_small", emit=True, names=NAMES[:1], maxentries=1, maxprops=1, deltas=deltas, invariants=[], workers=4)
     if not g.ok:
         raise vlib.MachineryError("generator (small space) failed: %s" % (g.error or g.violated))
-    rep.add_tlc(g, "Pbo_MC generator: complete small space (<=1 entry of {a.sqf, d/b.txt}, <=1 property), every fault emitted")
+    rep.add_tlc(g, "Pbo_MC generator: complete small space (<=1 entry a.sqf of size 0, 1 or 5, <=1 property), every fault emitted")
     take(g, "s")
     rep.exhaustive = True
     rep.extra["small_space_cases"] = len(cases)
@@ -529,7 +564,7 @@ def generate(rep, tier, rng):
         a["arch"]["props"] = [list(x) for x in a["arch"]["props"]]
         if len(a["arch"]["entries"]) >= 2:
             strata.setdefault((len(a["arch"]["entries"]), len(a["arch"]["props"])), []).append(a["arch"])
-    per = 4 if quick else 60
+    per = 2 if quick else 60
     chosen = []
     for key in sorted(strata):
         pool = sorted(strata[key], key=lambda x: json.dumps(x, sort_keys=True))
@@ -541,7 +576,7 @@ def generate(rep, tier, rng):
     rep.add_tlc(gs, "Pbo_MC generator: %d sampled archives x every truncation point x corruptions" % len(chosen))
     take(gs, "g")
     # ---- 4. seeded random larger archives: structural truncation points + block boundaries
-    nbig = 6 if quick else 120
+    nbig = 4 if quick else 120
     rnd = [random_archive(rng, k, big=(k % 2 == 0)) for k in range(nbig)]
     gr = mc("gen_random", mode="given", emit=True, given=rnd, allpoints=False, deltas=deltas, invariants=[], workers=vlib.NCPU, timeout_s=3000, xmx="16g")
     if not gr.ok:
